@@ -223,8 +223,9 @@ def open_layout(lay, d):
         rate = (last // 2 if last % 2 == 0 and n % 2 else last) / 600.
     if be == 'flat':
         ext_ = lay['ext'] if not lay.get('mixed_ext') else [e for e in L.FLAT_EXT if e != '.mda'] if lay['ext'] != '.mda' else lay['ext']
+        # (file names with several dots, as acquisition systems write them: run_g0_t0.imec0.ap_t9.bin)
         paths = L.write_flat(d, A, lay['parts'], offset=lay['offset'], ext=ext_, stray=bool(lay.get('stray')) and nc * dt.itemsize > 1,
-                             same_name=bool(lay.get('same_name')))
+                             same_name=bool(lay.get('same_name')), stem='rec' if (n + nc) % 4 != 1 else 'run_g0_t0.imec0.ap')
         if lay.get('symlink'):
             # the sorting folder holds links to raw data stored elsewhere
             from pathlib import Path
@@ -260,7 +261,7 @@ def open_layout(lay, d):
             os.chdir(decoy)
         bounds = np.r_[0, np.cumsum(lay['parts'])].tolist()
     elif be == 'npy':
-        p = L.write_npy(d, A)
+        p = L.write_npy(d, A, fortran=(n + nc) % 3 == 1, stem='rec' if (n + nc) % 4 != 1 else 'rec.session1.lf')
         # (the dtype / n_channels keywords describe flat files; an .npy file or an array knows its own)
         r = call(get_ephys_reader, p if n % 2 else [p], sample_rate=rate, dtype=dt if n % 3 else np.dtype('int8'), n_channels=nc)
         bounds = [0, n]
@@ -273,7 +274,18 @@ def open_layout(lay, d):
             p = L.write_cbin_irregular(d, A, rate, lay['lens'])
         else:
             p = L.write_cbin(d, A, rate, lay['chunk_len'], n_threads=1, do_time_diff=not fl)
-        r = call(lambda: get_ephys_reader(L.open_cbin(p, lay['threads'])))
+        if (n + nc + lay['chunk_len']) % 3 == 1:
+            # the header file is kept elsewhere and handed to the reader explicitly; another recording's header lies beside the data
+            ch = str(p)[:-5] + '.ch'
+            os.makedirs(os.path.join(d, 'meta'), exist_ok=True)
+            ch2 = os.path.join(d, 'meta', 'header.ch')
+            os.replace(ch, ch2)
+            if n > 1 and not lay.get('lens'):
+                L.write_cbin(os.path.join(d, 'meta'), A[:n - 1], rate, max(1, lay['chunk_len'] - 1) or 1, stem='other')
+                os.replace(os.path.join(d, 'meta', 'other.ch'), ch)
+            r = call(lambda: get_ephys_reader(L.open_cbin(p, lay['threads'], cmeta=ch2)))
+        else:
+            r = call(lambda: get_ephys_reader(L.open_cbin(p, lay['threads'])))
         bounds = list(range(0, n, lay['chunk_len'])) + [n] if not lay.get('lens') else np.r_[0, np.cumsum(lay['lens'])].tolist()
     return A, r, bounds, rate
 
